@@ -68,10 +68,16 @@ package bttest
 //@   ensures famSep(r.Families)
 // frame (for callers that hold other rows): families that are not in r keep their column list, column arrays that do
 // not belong to a family of r keep their elements
-//@   ensures forall p *btpb.Family :: (forall k :: 0 <= k < old(len(r.Families)) ==> old(r.Families[k]) != p) ==> p.Columns == old(p.Columns)
-//@   ensures forall s []*btpb.Column, j :: 0 <= j < len(s) && (forall k :: 0 <= k < old(len(r.Families)) ==> old(obj(r.Families[k].Columns)) != obj(s)) ==> s[j] == old(s[j])
-//@   loop 1 invariant forall p *btpb.Family :: (forall k :: 0 <= k < old(len(r.Families)) ==> old(r.Families[k]) != p) ==> p.Columns == old(p.Columns)
-//@   loop 1 invariant forall s []*btpb.Column, j :: 0 <= j < len(s) && (forall k :: 0 <= k < old(len(r.Families)) ==> old(obj(r.Families[k].Columns)) != obj(s)) ==> s[j] == old(s[j])
+//@   ensures forall p *btpb.Family :: !fresh(p) && (forall k :: 0 <= k < old(len(r.Families)) ==> old(r.Families[k]) != p) ==> p.Columns == old(p.Columns)
+//@   ensures forall s []*btpb.Column, j :: 0 <= j < len(s) && !fresh(s) && (forall k :: 0 <= k < old(len(r.Families)) ==> old(obj(r.Families[k].Columns)) != obj(s)) ==> s[j] == old(s[j])
+//@   loop 1 invariant forall p *btpb.Family :: !fresh(p) && (forall k :: 0 <= k < old(len(r.Families)) ==> old(r.Families[k]) != p) ==> p.Columns == old(p.Columns)
+//@   loop 1 invariant forall s []*btpb.Column, j :: 0 <= j < len(s) && !fresh(s) && (forall k :: 0 <= k < old(len(r.Families)) ==> old(obj(r.Families[k].Columns)) != obj(s)) ==> s[j] == old(s[j])
+// cuts: the family handed to scrubFam is the (idx1+1)-th family of the input row (this also puts that ground term into
+// the solver's context), then the two frame facts right after the only call that writes Family.Columns / column arrays
+//@   callsite scrubFam requires arg0 == old(r.Families[idx1 + 1]) && arg0.Columns == old(r.Families[idx1 + 1].Columns)
+//@   callsite scrubFam ensures old(famKeeps(r.Families[idx1 + 1], cols)) ==> len(result0.Columns) > 0
+//@   callsite scrubFam ensures forall p *btpb.Family :: !fresh(p) && (forall k :: 0 <= k < old(len(r.Families)) ==> old(r.Families[k]) != p) ==> p.Columns == old(p.Columns)
+//@   callsite scrubFam ensures forall s []*btpb.Column, j :: 0 <= j < len(s) && !fresh(s) && (forall k :: 0 <= k < old(len(r.Families)) ==> old(obj(r.Families[k].Columns)) != obj(s)) ==> s[j] == old(s[j])
 //@   loop 1 invariant 0 <= wIdx <= idx1 + 1
 //@   loop 1 invariant old(rowDesc(r)) ==> forall i :: 0 <= i < wIdx ==> colsDesc(r.Families[i].Columns)
 //@   loop 1 invariant old(rowDesc(r)) ==> forall k :: idx1 < k < len(r.Families) ==> colsDesc(r.Families[k].Columns)
